@@ -735,6 +735,7 @@ def _ring_methods():
         a = Poly.atom(n)
         st.hyps.append(("<=", Poly.const(0), a))
         st.hyps.append(("<=", a, Poly.const(MOD() - 1)))
+        st.hyps.append(mk_iff(req(poly), ("=", a, Poly.const(0))))
         for k2, other in list(st.cache.items()):
             if isinstance(k2, tuple) and k2 and k2[0] == "cv":
                 e = req(poly - k2[1])
@@ -743,6 +744,9 @@ def _ring_methods():
                 if not (poly + k2[1]).t and isinstance(other, Poly):
                     # canonical representatives of x and -x:  both 0, or they add up to P
                     st.hyps.append(mk_or(mk_and(("=", a, Poly.const(0)), ("=", other, Poly.const(0))), ("=", a + other, Poly.const(MOD()))))
+                elif isinstance(other, Poly) and "cvneg" in self.run.c.opts:
+                    # the same fact for values that are only provably opposite
+                    st.hyps.append(mk_implies(req(poly + k2[1]), mk_or(mk_and(("=", a, Poly.const(0)), ("=", other, Poly.const(0))), ("=", a + other, Poly.const(MOD())))))
         st.cache[key] = a
         return a
 
